@@ -6,6 +6,7 @@ import os
 import shutil
 import subprocess
 import sys
+import time
 from concurrent.futures import ThreadPoolExecutor
 
 VERIF = os.path.dirname(os.path.dirname(os.path.abspath(__file__)))
@@ -97,7 +98,8 @@ def build(variant, programs=('hx',), repo=None, quiet=True):
                         same = fh.read() == repr(sorted(programs))
                 except OSError:
                     same = True
-                if same:
+                # keep recent builds: another check started before the last source edit may still be running from one
+                if same and time.time() - os.path.getmtime(os.path.join(BUILD_ROOT, d)) > 6 * 3600:
                     shutil.rmtree(os.path.join(BUILD_ROOT, d), ignore_errors=True)
     shutil.rmtree(bdir, ignore_errors=True)
     os.makedirs(os.path.join(bdir, 'lib'))
